@@ -215,6 +215,49 @@ fn scripted(v: Variant) -> Vec<Hist> {
     for sh in [Some(0u128), Some(1), Some(ONE - 1), Some(ONE), Some(ONE + 1), Some(2 * ONE), None] {
         out.push(Hist { setup: setup_with(v, sh), steps: vec![st(t0 + DAY_NS, "creator", upd_roy(PCT))] });
     }
+    // first update of a collection's life: initial entry {none, 0 %, 1 unit, 2 %, 10 %, 100 %}
+    // x clock {24 h - 1 ns, 24 h, 24 h + 1 ns} x new share {+1 unit, +2 points, +2 points
+    // + 1 unit, 5 %, 100 %} (an entry of 0 % is an entry: at most 0 % -> 2 %)
+    for init in [None, Some(0u128), Some(1), Some(2 * PCT), Some(10 * PCT), Some(ONE)] {
+        let b = init.unwrap_or(0);
+        for at in [t0 + DAY_NS - 1, t0 + DAY_NS, t0 + DAY_NS + 1] {
+            for new in [b + 1, b + 2 * PCT, b + 2 * PCT + 1, 5 * PCT, ONE] {
+                let mut steps = vec![st(at, "creator", upd_roy(new))];
+                if at == t0 + DAY_NS {
+                    // and one more day later, the follow-up raise from whatever was accepted
+                    steps.push(st(at + DAY_NS, "creator", upd_roy(new.min(ONE - 2 * PCT) + 2 * PCT)));
+                    steps.push(st(at + 2 * DAY_NS, "creator", upd_roy(5 * PCT)));
+                }
+                out.push(Hist { setup: setup_with(v, init), steps });
+            }
+        }
+    }
+    // lowered to 0 % the entry is still an entry: the way back up is +2 points per day
+    out.push(Hist {
+        setup: setup_with(v, Some(5 * PCT)),
+        steps: vec![
+            st(t0 + DAY_NS, "creator", upd_roy(0)),
+            st(t0 + 2 * DAY_NS, "creator", upd_roy(5 * PCT)),
+            st(t0 + 2 * DAY_NS, "creator", upd_roy(2 * PCT + 1)),
+            st(t0 + 2 * DAY_NS, "creator", upd_roy(2 * PCT)),
+            st(t0 + 3 * DAY_NS, "creator", upd_roy(ONE)),
+        ],
+    });
+    // a 0 % (and a 1-unit) entry across a migration to the sg721-updatable code, then the
+    // first raise of the collection's life
+    for init in [Some(0u128), Some(1), None] {
+        for cw2 in [None, Some((if v == Variant::Base { NAME_BASE_LEGACY } else { NAME_UPD_LEGACY }.to_string(), "3.2.1".to_string()))] {
+            if cw2.is_some() && !matches!(v, Variant::Base | Variant::Updatable) {
+                continue;
+            }
+            for new in [init.unwrap_or(0) + 2 * PCT, init.unwrap_or(0) + 2 * PCT + 1, 5 * PCT, ONE] {
+                out.push(Hist {
+                    setup: Setup { cw2: cw2.clone(), ..setup_with(v, init) },
+                    steps: vec![st(t0 + 10, "creator", Op::Migrate), st(t0 + DAY_NS, "creator", upd_roy(new)), st(t0 + 2 * DAY_NS, "creator", upd_roy(4 * PCT))],
+                });
+            }
+        }
+    }
     // cadence measured from instantiation and from the previous accepted change
     for d0 in [DAY_NS - 1, DAY_NS, DAY_NS + 1] {
         for d1 in [DAY_NS - 1, DAY_NS, DAY_NS + 1] {
@@ -463,9 +506,23 @@ fn random_hist(v: Variant, rng: &mut Rng, len: usize) -> Runner {
 /// The property text evaluated on one recorded history.  Returns (key suffix, description).
 pub fn history_monitor(r: &Runner) -> Option<(String, String)> {
     let init = r.init_obs.as_ref()?;
-    if let Some(x) = &init.info.royalty {
+    // LEDGER RULE: the royalty entry as the creator set it - the instantiate message, then
+    // every accepted update that carries royalty_info (an omitted / null field leaves it
+    // unchanged; the documented semantics have no removal).  The raise monitors judge a new
+    // share against the ledger's previous entry, never against a value read back from the
+    // contract: an entry of 0 % is an entry (+2 points at most).
+    let mut ledger: Option<Roy> = r.setup.info.royalty.clone();
+    let mut ledger_creator: String = r.setup.info.creator.clone();
+    // ceiling for climbs: max(share of the first entry, 10 %)
+    let mut cap: Option<u128> = ledger.as_ref().map(|x| x.share.max(10 * PCT));
+    if let Some(x) = &ledger {
         if x.share > ONE {
             return Some(("share-above-100".into(), format!("instantiated with share {}", share_str(x.share))));
+        }
+    }
+    if let Some(x) = &init.info.royalty {
+        if x.share > ONE {
+            return Some(("share-above-100".into(), format!("CollectionInfo reports share {} after instantiation", share_str(x.share))));
         }
     }
     let mut last_accept: Option<u64> = None;
@@ -473,30 +530,40 @@ pub fn history_monitor(r: &Runner) -> Option<(String, String)> {
     let mut frozen = false;
     for (i, rec) in r.recs.iter().enumerate() {
         let since = anchor; // last accepted change before this step (or creation)
-        let old = rec.before.info.royalty.as_ref().map(|x| x.share);
-        let new = rec.after.info.royalty.as_ref().map(|x| x.share);
-        if let Some(n) = new {
+        if let Some(n) = rec.after.info.royalty.as_ref().map(|x| x.share) {
             if n > ONE {
                 return Some(("share-above-100".into(), format!("step {}: share {} after {:?}", i, share_str(n), rec.step.op)));
             }
         }
-        if let (Some(o), Some(n)) = (old, new) {
-            if n > o && n - o > 2 * PCT {
-                return Some(("raise-above-2pp".into(), format!("step {}: share raised {} -> {}", i, share_str(o), share_str(n))));
-            }
-            if n > o && n > 10 * PCT {
-                return Some(("raise-above-10pct".into(), format!("step {}: share raised {} -> {}", i, share_str(o), share_str(n))));
-            }
-        }
-        let roy_msg = match &rec.step.op {
-            Op::UpdateInfo(u) => u.royalty.clone(),
-            _ => None,
+        let (roy_msg, creator_msg) = match &rec.step.op {
+            Op::UpdateInfo(u) => (u.royalty.clone(), u.creator.clone()),
+            _ => (None, None),
         };
         let changed = rec.before.info.royalty != rec.after.info.royalty;
         if changed && !(rec.ok && roy_msg.is_some()) {
             return Some(("royalty-changed-without-update".into(), format!("step {}: {:?} changed royalties to {:?}", i, rec.step.op, rec.after.info.royalty)));
         }
-        if rec.ok && roy_msg.is_some() {
+        let old = ledger.as_ref().map(|x| x.share);
+        if let (true, Some(m)) = (rec.ok, &roy_msg) {
+            let n = m.share;
+            if n > ONE {
+                return Some(("share-above-100".into(), format!("step {}: update to share {} accepted", i, share_str(n))));
+            }
+            if let Some(o) = old {
+                if n > o && n - o > 2 * PCT {
+                    return Some(("raise-above-2pp".into(), format!("step {}: accepted raise {} -> {} (previous entry as the creator set it)", i, share_str(o), share_str(n))));
+                }
+                if n > o && n > 10 * PCT {
+                    return Some(("raise-above-10pct".into(), format!("step {}: accepted raise {} -> {} (previous entry as the creator set it)", i, share_str(o), share_str(n))));
+                }
+            }
+            match cap {
+                Some(c) if n > c => {
+                    return Some(("climb".into(), format!("step {}: share {} above max(first entry, 10%) = {}", i, share_str(n), share_str(c))));
+                }
+                None => cap = Some(n.max(10 * PCT)),
+                _ => {}
+            }
             if let Some(prev) = last_accept {
                 if rec.step.at < prev || rec.step.at - prev < DAY_NS {
                     return Some(("cadence".into(), format!("step {}: royalty change accepted {} ns after the previous accepted one", i, rec.step.at.wrapping_sub(prev))));
@@ -504,15 +571,21 @@ pub fn history_monitor(r: &Runner) -> Option<(String, String)> {
             }
             last_accept = Some(rec.step.at);
             anchor = rec.step.at;
+            ledger = Some(m.clone());
         }
         // lowering is always allowed within the cadence: creator, not frozen, a message
-        // that changes nothing else, share not above the current one, >= 24 h since the
+        // that changes nothing else, share not above the current entry, >= 24 h since the
         // last accepted change (or creation)
         if let (Some(m), Some(o)) = (&roy_msg, old) {
             let plain = matches!(&rec.step.op, Op::UpdateInfo(u) if u.description.is_none() && u.image.is_none() && u.external_link.is_none() && u.creator.is_none());
             let waited = rec.step.at >= since && rec.step.at - since >= DAY_NS;
-            if plain && !frozen && rec.step.sender == rec.before.info.creator && m.share <= o && waited && since.checked_add(DAY_NS).is_some() && !rec.ok {
+            if plain && !frozen && rec.step.sender == ledger_creator && m.share <= o && waited && since.checked_add(DAY_NS).is_some() && !rec.ok {
                 return Some(("lowering-rejected".into(), format!("step {}: lowering {} -> {} by the creator {} ns after the last change was rejected: {}", i, share_str(o), share_str(m.share), rec.step.at - since, rec.err)));
+            }
+        }
+        if rec.ok {
+            if let Some(c) = creator_msg {
+                ledger_creator = c;
             }
         }
         if rec.ok && matches!(rec.step.op, Op::FreezeInfo) {
@@ -637,7 +710,7 @@ pub fn run(a: &Args) {
         }
     }
     rep.distinct_nontrivial = distinct.len() as u64;
-    rep.rule = "evaluations = royalty_payout calls + instantiations + executed history steps. Payout: shares {none, 0, 1, 1%, 2%, 5%, 10%, 50%, 99%, 100%, 200%, u128::MAX} +-1 atomic x payments (small, 10^k, 10^18, u128::MAX, +-1) x fees on the `fees + royalty = payment` boundary +-1, with/without finder's fee, plus random u128. Histories: per variant (base, updatable, updatable-migrated, metadata-onchain, nt) instantiate shares around 100%, clocks at 24h-1ns/24h/24h+1ns from creation and from the previous accepted change, raises of 2% +-1 atomic from 12 bases, cap 10% +-1 atomic, first royalty on a royalty-less collection, climbs, non-creator senders, frozen collection, u64 clock overflow, admin migrations to the sg721-updatable code between royalty updates at 1 ns / 1 h / 24 h -1 / +0 / +1 over the same cw2 name x version grid as C09, then random royalty histories (with migrations). Non-trivial = payout that pays or refuses; history step (distinct by variant, call, sender, outcome and prior observation) that is not a message-does-not-exist rejection.".into();
+    rep.rule = "evaluations = royalty_payout calls + instantiations + executed history steps. Payout: shares {none, 0, 1, 1%, 2%, 5%, 10%, 50%, 99%, 100%, 200%, u128::MAX} +-1 atomic x payments (small, 10^k, 10^18, u128::MAX, +-1) x fees on the `fees + royalty = payment` boundary +-1, with/without finder's fee, plus random u128. Histories: per variant (base, updatable, updatable-migrated, metadata-onchain, nt) initial entry {none, 0%, 1 unit, 2%, 10%, 100%} x first update at 24h-1ns/24h/24h+1ns x {+1 unit, +2pts, +2pts+1 unit, 5%, 100%} (monitors judge raises against the harness's ledger of the entry as the creator set it, never a read-back value), 0%/1-unit entries across a migration, lowering to 0% and back, instantiate shares around 100%, clocks at 24h-1ns/24h/24h+1ns from creation and from the previous accepted change, raises of 2% +-1 atomic from 12 bases, cap 10% +-1 atomic, first royalty on a royalty-less collection, climbs, non-creator senders, frozen collection, u64 clock overflow, admin migrations to the sg721-updatable code between royalty updates at 1 ns / 1 h / 24 h -1 / +0 / +1 over the same cw2 name x version grid as C09, then random royalty histories (with migrations). Non-trivial = payout that pays or refuses; history step (distinct by variant, call, sender, outcome and prior observation) that is not a message-does-not-exist rejection.".into();
     out.write_cases("C10", "From LP Require Import Collection C10Corr.", "c10_case", "c10_check", &coq_cases, 6, &mut rep);
     out.finish(&rep);
     println!("C10 harness: {} evaluations in {} cases, {} monitor violations", rep.evaluations, coq_cases.len(), nviol);
